@@ -1026,7 +1026,7 @@ func domainsetEngine() engine {
 			}
 			return domainEval(cases, d, o, rp)
 		},
-		budget:   func(o *common.Options) int { return o.Budget(1200, 8000) },
+		budget:   func(o *common.Options) int { return o.Budget(1200, 6000) },
 		batch:    100,
 		directed: domainDirected,
 	}
